@@ -109,3 +109,29 @@ def clear_plugin_caches(unload=False):
         for k in plugin_modules_loaded():
             if k != 'srcparsers.osrc.osrc' or True:
                 del sys.modules[k]
+
+
+# ---------------------------------------------------------------------------
+# a message registry and component names as environment (the sandbox has none installed)
+# ---------------------------------------------------------------------------
+REGISTRY = [
+    dict(SRC=dict(ReasonCode='0x2030', Type='BD', Words6To9={'6': dict(Description='rail number', AdditionalDataPropSource='RAIL'),
+                                                            '8': dict(AdditionalDataPropSource='NODESC')}),
+         Documentation=dict(Message='Power fault on rail %1, status word %2', MessageArgSources=['SRCWord6', 'SRCWord7'])),
+    dict(SRC=dict(ReasonCode='0x00AC', Type='11'),
+         Documentation=dict(Message='Fan %1 failed', MessageArgSources=['SRCWord9'])),
+    dict(SRC=dict(ReasonCode='0x8A01', Type='BC'), Documentation=dict(Message='No arguments in this message')),
+    dict(SRC=dict(ReasonCode='0x2031'),
+         Documentation=dict(Message='%1 then %2 then %3', MessageArgSources=['SRCWord3', 'SRCWord5', 'SRCWord3'])),
+]
+
+
+def install_registry():
+    import pel.peltool.src as srcmod
+    import pel.peltool.comp_id as comp_id
+    import copy
+    srcmod.registry.pels = copy.deepcopy(REGISTRY)
+    comp_id.componentIDs.clear()
+    comp_id.componentIDs.update({'O': {'1000': 'bmc common function', '2700': 'bmc power', '3500': 'bmc fan'},
+                                 'B': {'0100': 'hb trace'}})
+    comp_id.attemptedToParseCompIDs = True
